@@ -7,3 +7,25 @@ pub open spec fn script_approves(scripts: Map<Address, Bytes>, covhash: Address,
 pub open spec fn env_of(tx: Transaction, rel: Map<CoinID, CoinDataHeight>, i: int, last_header: Header) -> CovenantEnv {
     CovenantEnv { parent_coinid: tx.inputs@[i], parent_cdh: rel[tx.inputs@[i]], spender_index: i as u8, last_header: last_header }
 }
+/// input i is the first input of tx locked by its covenant hash (the covenant cache `good_scripts` cannot have it yet)
+pub open spec fn first_occ(tx: Transaction, rel: Map<CoinID, CoinDataHeight>, i: int) -> bool {
+    forall|j: int| 0 <= j < i ==> rel[#[trigger] tx.inputs@[j]].coin_data.covhash != rel[tx.inputs@[i]].coin_data.covhash
+}
+/// the domains the two known C04 findings exclude: at most 256 inputs (F-C04-index), pairwise different covenant hashes (F-C04-cache)
+pub open spec fn c04_domain(tx: Transaction, rel: Map<CoinID, CoinDataHeight>) -> bool {
+    tx.inputs@.len() <= 256 && forall|a: int, b: int| 0 <= a < b < tx.inputs@.len() && rel.contains_key(tx.inputs@[a]) && rel.contains_key(tx.inputs@[b]) ==> rel[tx.inputs@[a]].coin_data.covhash != rel[tx.inputs@[b]].coin_data.covhash
+}
+/// every covenant hash among the inputs has a first occurrence at or before any of its occurrences
+pub proof fn lemma_first_occ_exists(tx: Transaction, rel: Map<CoinID, CoinDataHeight>, k: int)
+    requires 0 <= k < tx.inputs@.len()
+    ensures exists|k0: int| 0 <= k0 <= k && rel[tx.inputs@[k0]].coin_data.covhash == rel[tx.inputs@[k]].coin_data.covhash && #[trigger] first_occ(tx, rel, k0)
+    decreases k
+{
+    if first_occ(tx, rel, k) { assert(0 <= k <= k && first_occ(tx, rel, k)); }
+    else {
+        let j = choose|j: int| 0 <= j < k && rel[#[trigger] tx.inputs@[j]].coin_data.covhash == rel[tx.inputs@[k]].coin_data.covhash;
+        lemma_first_occ_exists(tx, rel, j);
+        let k0 = choose|k0: int| 0 <= k0 <= j && rel[tx.inputs@[k0]].coin_data.covhash == rel[tx.inputs@[j]].coin_data.covhash && #[trigger] first_occ(tx, rel, k0);
+        assert(0 <= k0 <= k && rel[tx.inputs@[k0]].coin_data.covhash == rel[tx.inputs@[k]].coin_data.covhash && first_occ(tx, rel, k0));
+    }
+}
